@@ -81,10 +81,10 @@ theorem python_rename_not_keyword (E : Ext) (name : Str) :
 theorem us_not_digit : Str.isAsciiDigit '_' = false := by decide
 
 /-- **Kotlin: the class name of a sealed-class case never starts with a digit** -/
-theorem kotlin_variantName_head (s : Str) (c : Char) (rest : Str) (h : Kotlin.variantName s = c :: rest) :
+theorem kotlin_variantName_head (U : UnicodeOps) (s : Str) (c : Char) (rest : Str) (h : Kotlin.variantName U s = c :: rest) :
     Str.isAsciiDigit c = false := by
   simp only [Kotlin.variantName] at h
-  cases hp : Rename.toPascal s with
+  cases hp : Rename.toPascal U s with
   | nil => rw [hp] at h; simp at h
   | cons d t =>
     rw [hp] at h
@@ -106,10 +106,10 @@ theorem scala_variantName_head (s : Str) (c : Char) (rest : Str) (h : Scala.vari
     · rename_i hd; cases h; simpa using hd
 
 /-- **Swift: the case name of an algebraic enum never starts with a digit** -/
-theorem swift_algebraicCaseName_head (v : RustEnumVariant) (c : Char) (rest : Str)
-    (h : Swift.algebraicCaseName v = c :: rest) : Str.isAsciiDigit c = false := by
+theorem swift_algebraicCaseName_head (U : UnicodeOps) (v : RustEnumVariant) (c : Char) (rest : Str)
+    (h : Swift.algebraicCaseName U v = c :: rest) : Str.isAsciiDigit c = false := by
   simp only [Swift.algebraicCaseName] at h
-  cases hp : Rename.toCamel v.id.original with
+  cases hp : Rename.toCamel U v.id.original with
   | nil => rw [hp] at h; simp at h
   | cons d t =>
     rw [hp] at h
